@@ -21,6 +21,9 @@ package v2
 // not reported. Reported: no convergence within 4R rounds, R consecutive fair rounds in which no node admitted anything
 // (several complete expiry cycles: the deterministic simulation is then in a fixpoint), or a message storm (> 1200
 // deliveries and > 2 expiry cycles without any admission).
+// Private transactions (pal header) are part of the DAGs: a generated subset of their holders has the payload, every other
+// node holds, serves and receives them without (the nodes have no node DID, so no payload scheduler runs; fetching private
+// payloads is not this property's subject). The union is over transactions.
 // Transaction references differ from run to run (fresh ECDSA keys per transaction), so a replay repeats the scenario, not
 // the exact hashes; IBLT decode success near the capacity limit may therefore differ between runs.
 
@@ -72,6 +75,8 @@ type c07Seg struct {
 	O int            `json:"o"`
 	R int            `json:"r,omitempty"` // order of a merge's prevs header: 0 by creation, 1 highest-clock prev first, 2 last, 3 in the middle
 	W bool           `json:"w,omitempty"` // wide: the N transactions are siblings (all hang off P, same clock) instead of a chain
+	X int            `json:"x,omitempty"` // > 0: every X-th transaction of the segment is PRIVATE (non-empty pal header; never the root)
+	H int            `json:"h,omitempty"` // bitmask of the nodes (among the segment's holders) that have the payload of its private transactions
 }
 
 // c07Act is one schedule action.
@@ -233,29 +238,71 @@ func c07Gen(t *rapid.T) c07Case {
 		seg(burstLen, 1<<burstOwner, dagshape.Ref{Seg: len(c.Segs) - 1, Back: back()})
 		c.Segs[len(c.Segs)-1].W = rapid.IntRange(0, 3).Draw(t, "wide") == 0
 	case "highpage":
-		// same (or lower) height but a page >= 1 that differs by more than one IBLT decodes, all lower pages equal:
-		// a shared trunk crossing the first page boundary + > 650 private siblings right behind it
-		seg(pick("trunk", 513, 520, 560), all)
+		// a shared trunk crossing one or two page boundaries + > 650 node-private siblings hanging off it, on the trunk's top page
+		// (all lower pages equal), one page below it, or on page 0 (every cumulative comparison undecodable: the walk-down has to
+		// take one step per page); the peer ends on the same page, a lower page, or - behind a private chain - a higher one
+		trunk := pick("trunk", 513, 520, 560, 560, 1030, 1045)
+		seg(trunk, all)
+		top := (trunk - 1) / 512                // page of the trunk's tip
+		at := func(label string) dagshape.Ref { // where a set of siblings hangs
+			switch pick(label, 0, 0, 0, 1, 2) {
+			case 1: // the page below the trunk's top page
+				return dagshape.Ref{Seg: 0, Back: trunk - ((top-1)*512 + pick(label+"off", 3, 300, 510))}
+			case 2: // page 0
+				return dagshape.Ref{Seg: 0, Back: trunk - pick(label+"off0", 2, 200, 505)}
+			}
+			return dagshape.Ref{Seg: 0}
+		}
 		a := rapid.IntRange(0, c.Nodes-1).Draw(t, "a")
 		b := (a + 1) % c.Nodes
-		switch rapid.IntRange(0, 2).Draw(t, "variant") {
+		variant := rapid.IntRange(0, 4).Draw(t, "variant")
+		if top >= 2 && !thorough && (variant == 0 || variant == 3) {
+			variant = 1 + variant/3 // quick tier: one set of siblings on a two-boundary trunk (cost)
+		}
+		switch variant {
 		case 0: // both sides, same height
-			seg(rapid.IntRange(680, 760).Draw(t, "wa"), 1<<a, dagshape.Ref{Seg: 0})
+			seg(rapid.IntRange(680, 760).Draw(t, "wa"), 1<<a, at("ata"))
 			c.Segs[len(c.Segs)-1].W = true
-			seg(rapid.IntRange(680, 760).Draw(t, "wb"), 1<<b, dagshape.Ref{Seg: 0})
+			seg(rapid.IntRange(680, 760).Draw(t, "wb"), 1<<b, at("atb"))
 			c.Segs[len(c.Segs)-1].W = true
 		case 1: // one side only, the other node ends on the same page
-			seg(rapid.IntRange(740, 820).Draw(t, "wa"), 1<<a, dagshape.Ref{Seg: 0})
+			seg(rapid.IntRange(740, 820).Draw(t, "wa"), 1<<a, at("ata"))
 			c.Segs[len(c.Segs)-1].W = true
 		case 2: // the node with the siblings is one page LOWER than its peer
-			seg(rapid.IntRange(740, 820).Draw(t, "wa"), 1<<a, dagshape.Ref{Seg: 0})
+			seg(rapid.IntRange(740, 820).Draw(t, "wa"), 1<<a, at("ata"))
 			c.Segs[len(c.Segs)-1].W = true
 			seg(rapid.IntRange(510, 600).Draw(t, "cb"), 1<<b, dagshape.Ref{Seg: 0})
+		case 3: // both sides, and one of them a page (or nearly a page) HIGHER behind a private chain
+			seg(rapid.IntRange(680, 720).Draw(t, "wa"), 1<<a, at("ata"))
+			c.Segs[len(c.Segs)-1].W = true
+			seg(rapid.IntRange(680, 720).Draw(t, "wb"), 1<<b, at("atb"))
+			c.Segs[len(c.Segs)-1].W = true
+			seg(pick("cb2", 200, 515, 540), 1<<b, dagshape.Ref{Seg: 0})
+		case 4: // the node with the siblings is itself the higher one
+			seg(rapid.IntRange(740, 820).Draw(t, "wa"), 1<<a, at("ata"))
+			c.Segs[len(c.Segs)-1].W = true
+			seg(pick("ca", 100, 515, 540), 1<<a, dagshape.Ref{Seg: 0})
 		}
 	case "disjoint":
 		seg(pick("len0", 1, 10, 100), all)
+		// long: branches that end on different pages >= 1 (one node at least a page ahead of the other, either order) and differ
+		// by more than an IBLT decodes on every page they share: the walk-down after a failed decode starts BELOW the peer's top page
+		long := rapid.IntRange(0, 3).Draw(t, "long") == 0
+		budget := 1760
+		if thorough {
+			budget = 3200
+		}
 		for i := 0; i < c.Nodes; i++ {
-			s := seg(pick("len", 20, 100, 300, 450), 1<<i, dagshape.Ref{Seg: 0, Back: back()})
+			n := 0
+			if long {
+				if n = pick("llen", 530, 600, 700, 1080, 1100, 1100); n > budget-20 {
+					n = pick("llen2", 20, 100, 300)
+				}
+				budget -= n
+			} else {
+				n = pick("len", 20, 100, 300, 450)
+			}
+			s := seg(n, 1<<i, dagshape.Ref{Seg: 0, Back: back()})
 			if rapid.IntRange(0, 2).Draw(t, "second") == 0 {
 				seg(pick("len2", 1, 5, 60), 1<<i, dagshape.Ref{Seg: s, Back: back()})
 			}
@@ -272,6 +319,16 @@ func c07Gen(t *rapid.T) c07Case {
 				prev = append(prev, dagshape.Ref{Seg: rapid.IntRange(0, len(c.Segs)-1).Draw(t, "tseg"), Back: pick("tback", 0, 0, 1, 2, 4)})
 			}
 			seg(pick("taillen", 1, 1, 2, 3), all, prev...)
+		}
+	}
+	// private transactions (non-empty pal header): in 1-3 segments every X-th transaction is private; its payload is held by a
+	// generated subset of the nodes that hold the transaction (none, some, all: a node that is not a participant - or has not
+	// fetched the payload yet - holds and serves the transaction without it)
+	if rapid.IntRange(0, 2).Draw(t, "private") == 0 {
+		for k := pick("privsegs", 1, 1, 2, 3); k > 0; k-- {
+			sg := &c.Segs[rapid.IntRange(0, len(c.Segs)-1).Draw(t, "privseg")]
+			sg.X = pick("privevery", 1, 1, 2, 5, 40)
+			sg.H = rapid.IntRange(0, all).Draw(t, "privholders")
 		}
 	}
 	for i := 0; i < c.Nodes; i++ {
@@ -382,6 +439,17 @@ type c07Tx struct {
 	tx      dag.Transaction
 	payload []byte
 	own     int
+	priv    bool // private: carries a pal header; peers never send its payload along
+	holders int  // private: bitmask of the nodes that have the payload from the start (subset of own)
+}
+
+// payloadAt is the payload node i has for the transaction when it creates / first stores it itself: nil for a private
+// transaction whose payload the node does not hold.
+func (t c07Tx) payloadAt(i int) []byte {
+	if t.priv && t.holders&(1<<i) == 0 {
+		return nil
+	}
+	return t.payload
 }
 
 type c07Msg struct {
@@ -450,8 +518,11 @@ func (s *c07State) Add(ctx context.Context, tx dag.Transaction, payload []byte) 
 // refused judges an Add that returned an error. Returns true when the refusal is a violation.
 func (f *c07Fix) refused(n *c07Node, tx dag.Transaction, payload []byte, err error, phase string) bool {
 	j, ok := f.valid[tx.Ref()]
-	if !ok || string(payload) != string(f.txs[j].payload) {
-		return false // a forgery, or a valid transaction offered with the wrong payload
+	if !ok {
+		return false // a forgery
+	}
+	if string(payload) != string(f.txs[j].payload) && !(f.txs[j].priv && len(payload) == 0) {
+		return false // a valid transaction offered with the wrong payload (a private one legitimately comes without any)
 	}
 	for _, prev := range tx.Previous() {
 		if !n.have[prev] {
@@ -478,11 +549,15 @@ func (f *c07Fix) refused(n *c07Node, tx dag.Transaction, payload []byte, err err
 // addOwn lets node n create/admit generated transaction j locally. False: refused (violation recorded), end the case.
 func (f *c07Fix) addOwn(n *c07Node, j int, phase string) bool {
 	t := f.txs[j]
-	err := n.st.Add(f.ctx, t.tx, t.payload)
+	fresh := !n.have[t.tx.Ref()] // else a peer was faster (a late transaction that already arrived over the network): Add is a no-op
+	err := n.st.Add(f.ctx, t.tx, t.payloadAt(n.i))
 	if err == nil {
+		if fresh && t.priv && t.payloadAt(n.i) != nil {
+			n.privPayload[t.tx.Ref()] = true
+		}
 		return true
 	}
-	if !f.refused(n, t.tx, t.payload, err, phase) {
+	if !f.refused(n, t.tx, t.payloadAt(n.i), err, phase) {
 		f.x.Fatalf("%s of transaction %d on node %d: %v (prevs not all present: harness ordering problem)", phase, j, n.i, err)
 	}
 	return false
@@ -502,8 +577,10 @@ type c07Node struct {
 	conns []*c07Conn // by destination node (nil for self)
 	cl    *c07ConnList
 	have  map[hash.SHA256Hash]bool
-	fold  hash.SHA256Hash
-	late  []int // indices of transactions still to be created/admitted locally
+	// private transactions whose payload this node stored itself (peers never send it along)
+	privPayload map[hash.SHA256Hash]bool
+	fold        hash.SHA256Hash
+	late        []int // indices of transactions still to be created/admitted locally
 }
 
 type c07Fix struct {
@@ -622,6 +699,7 @@ func (f *c07Fix) build() {
 	f.invalid = map[hash.SHA256Hash]string{}
 	f.badPayloadRefs = map[hash.SHA256Hash]bool{}
 	f.unionXor = hash.EmptyHash()
+	posInSeg := make([]int, len(c.Segs))
 	for j, n := range nodes {
 		if !seen[n.Seg] {
 			seen[n.Seg] = true
@@ -643,7 +721,15 @@ func (f *c07Fix) build() {
 		for k, p := range n.Prevs {
 			prevs[k] = f.txs[p].tx
 		}
-		tx := dag.CreateSignedTestTransaction(uint32(j), c07BaseTime.Add(time.Duration(j)*time.Second), nil, "application/did+json", true, prevs...)
+		posInSeg[n.Seg]++
+		var pal [][]byte
+		if every := c.Segs[n.Seg].X; every > 0 && j > 0 && posInSeg[n.Seg]%every == 0 {
+			// an opaque pal entry: no simulated node can decrypt it (the nodes run without node DID, so none of them tries)
+			pal = [][]byte{{1, 2, 3, byte(j)}, {4, 5, 6}}
+			f.txs[j].priv = true
+			f.txs[j].holders = c.Segs[n.Seg].H & own
+		}
+		tx := dag.CreateSignedTestTransaction(uint32(j), c07BaseTime.Add(time.Duration(j)*time.Second), pal, "application/did+json", true, prevs...)
 		if tx.Clock() != n.Clock {
 			f.x.Fatalf("clock of built transaction %d is %d, shape says %d", j, tx.Clock(), n.Clock)
 		}
@@ -659,7 +745,7 @@ func (f *c07Fix) build() {
 
 func (f *c07Fix) newNode(i int) *c07Node {
 	x := f.x
-	n := &c07Node{i: i, have: map[hash.SHA256Hash]bool{}, fold: hash.EmptyHash()}
+	n := &c07Node{i: i, have: map[hash.SHA256Hash]bool{}, privPayload: map[hash.SHA256Hash]bool{}, fold: hash.EmptyHash()}
 	kv, err := bbolt.CreateBBoltStore(filepath.Join(x.TempDir(), "dag.db"), stoabs.WithNoSync())
 	x.NoErr(err, "bbolt")
 	n.kv = kv
@@ -1360,13 +1446,16 @@ func (f *c07Fix) fullCheck(payloads bool) {
 		if payloads {
 			for ref := range n.have {
 				t := f.txs[f.valid[ref]]
+				if t.priv && !n.privPayload[ref] {
+					continue // private, and this node never stored the payload: peers do not send it along (fetching it is not C07's subject)
+				}
 				got, err := n.st.ReadPayload(f.ctx, t.tx.PayloadHash())
 				if err != nil || string(got) != string(t.payload) {
 					sig := "safety:payload-missing"
 					if f.badPayloadRefs[ref] {
 						sig = "safety:payload-missing:after-badpayload"
 					}
-					f.x.Violate(sig, "step %d (%s): node %d holds public transaction %s without its payload (err=%v, got %x, want %x)", f.step, f.stepWhat, n.i, ref, err, got, t.payload)
+					f.x.Violate(sig, "step %d (%s): node %d holds transaction %s (public, or private with the payload stored by the node itself) without its payload (err=%v, got %x, want %x)", f.step, f.stepWhat, n.i, ref, err, got, t.payload)
 					break
 				}
 			}
@@ -1577,6 +1666,86 @@ func c07Run(x *h.Ctx, c c07Case) {
 	}
 	if !differ {
 		x.Class("dag:identical")
+	}
+	// the walk-down seen from the requester i (it sends State at its own clock, peer j answers): the first comparison is made at
+	// page cmp = min(top page of i, top page of j) over everything up to that page (IBLTs are cumulative)
+	for i := 0; i < c.Nodes; i++ {
+		for j := 0; j < c.Nodes; j++ {
+			if !f.linked(i, j) {
+				continue
+			}
+			upTo := map[uint32]int{} // page -> transactions held by exactly one of i, j on that page
+			var topI, topJ uint32
+			for k := range f.txs {
+				o := f.txs[k].own
+				if o == 0 {
+					continue
+				}
+				pg := f.txs[k].tx.Clock() / dag.PageSize
+				hasI, hasJ := o&(1<<i) != 0, o&(1<<j) != 0
+				if hasI != hasJ {
+					upTo[pg]++
+				}
+				if hasI && pg > topI {
+					topI = pg
+				}
+				if hasJ && pg > topJ {
+					topJ = pg
+				}
+			}
+			cmp := topI
+			if topJ < cmp {
+				cmp = topJ
+			}
+			cum := func(pg uint32) int {
+				s := 0
+				for p := uint32(0); p <= pg; p++ {
+					s += upTo[p]
+				}
+				return s
+			}
+			if cmp >= 1 && cum(cmp) > 650 {
+				x.Class("walkdown: first comparison on a page >= 1 differs by > 650")
+				if topJ > cmp {
+					x.Class("walkdown: first comparison on a page >= 1 differs by > 650, peer on a higher page than the compared one")
+					mineOnly := 0 // what the PEER has more, up to the compared page (stays undecodable even after the peer caught up)
+					for k := range f.txs {
+						if o := f.txs[k].own; o&(1<<j) != 0 && o&(1<<i) == 0 && f.txs[k].tx.Clock()/dag.PageSize <= cmp {
+							mineOnly++
+						}
+					}
+					if mineOnly > 650 {
+						x.Class("walkdown: first comparison on a page >= 1, peer on a higher page and alone > 650 ahead up to the compared page")
+					}
+				}
+				if topI > cmp {
+					x.Class("walkdown: first comparison on a page >= 1 differs by > 650, requester on a higher page than the compared one")
+				}
+				if cmp >= 2 && cum(cmp-1) > 650 {
+					x.Class("walkdown: two or more steps (still > 650 one page below the first comparison, which is on a page >= 2)")
+				}
+			}
+		}
+	}
+	nPriv, privShape := 0, false
+	for k := range f.txs {
+		if t := f.txs[k]; t.own != 0 && t.priv {
+			nPriv++
+			if t.own != 1<<c.Nodes-1 && t.own&^t.holders != 0 {
+				privShape = true
+			}
+		}
+	}
+	switch {
+	case nPriv == 0:
+		x.Class("private:none")
+	case nPriv <= 5:
+		x.Class("private:1-5 transactions")
+	default:
+		x.Class("private:>5 transactions")
+	}
+	if privShape {
+		x.Class("private: a private transaction is missing at a node and a node that has it holds no payload for it")
 	}
 	x.Classf("msgkb:%d", c.MsgKB)
 
